@@ -98,14 +98,19 @@ def mk_items(c, fs, prefix, n):
     return out
 
 
-def build_tree(c, w: World, roles):
-    """puts the peers into the given roles; closing/closed children get there through the real disconnect()"""
+def build_tree(c, w: World, roles, symbolic_names=False):
+    """puts the peers into the given roles; closing/closed children get there through the real disconnect().
+    `symbolic_names`: the user name of every (open, closing or closed) child is a token in a 3-value domain, so two
+    child connections may or may not belong to the same user; otherwise the names are pairwise different."""
     dn = w.dn
     conns = {}
     for i, r in enumerate(roles):
         if r == 'absent':
             continue
-        u = nm(c, i + 1)
+        if symbolic_names and r in ('child', 'closing_child', 'closed_child'):
+            u = tok(c, f'u{i}', 1, 3)
+        else:
+            u = nm(c, i + 1)
         conn = conns[i] = w.new_peer_conn(u, hang_close=(r == 'closing_child'))
         peer = DistributedPeer(u, conn)
         dn.distributed_peers.append(peer)
@@ -126,18 +131,17 @@ def build_tree(c, w: World, roles):
     return conns
 
 
-def live_children(w: World, conns):
-    """reference fan-out set: connections that are children of ours and open (decided from the observable
-    connection state and the observable children list, not from what the code sent)"""
-    out = []
-    for conn in conns.values():
-        if conn.state is ConnectionState.CONNECTED and any(ch.connection is conn for ch in w.dn.children):
-            out.append(conn)
-    return out
+def live_children(roles, conns):
+    """reference fan-out set: connections that were accepted as children (role book-keeping of the harness: from the
+    admission until the connection closes) and are open.  Deliberately not read from DistributedNetwork.children."""
+    return [conn for i, conn in conns.items() if roles[i] == 'child' and conn.state is ConnectionState.CONNECTED]
 
 
-def one_request(c, w: World, sm, shares, fs, conns, roles, carrier, tag, matches=None, fixed_sender=None):
-    """`matches`: None = the shares have no match (fan-out harness); 'any' = 0..2 visible and 0..2 locked matches"""
+def one_request(c, w: World, sm, shares, fs, conns, roles, carrier, tag, matches=None, fixed_sender=None,
+                lenient=(), after_deliver=None, sig_extra=()):
+    """`matches`: None = the shares have no match (fan-out harness); 'any' = 0..2 visible and 0..2 locked matches.
+    `lenient`: peers whose socket fails / closes during this fan-out (at most one frame instead of exactly one).
+    `after_deliver`: environment activity while the fan-out is in flight (close of a child, socket recovers)."""
     dn = w.dn
     has_session = dn._session is not None
     check_answer = True
@@ -175,8 +179,10 @@ def one_request(c, w: World, sm, shares, fs, conns, roles, carrier, tag, matches
     before = {i: len(w.frames(conn)) for i, conn in conns.items()}
     before_server = len(w.frames(w.server))
     before_replies = len(w.peer_replies)
-    fanout = live_children(w, conns)
+    fanout = live_children(roles, conns)
     w.deliver(msg, sender)
+    if after_deliver is not None:
+        after_deliver()
     w.settle()
     c.reach('request_' + carrier)
     # "originates from the logged-in user": only defined while somebody is logged in
@@ -185,7 +191,7 @@ def one_request(c, w: World, sm, shares, fs, conns, roles, carrier, tag, matches
         own_req = same(asker, w.own)
         if not isinstance(own_req, bool):
             own_req = bool(own_req)
-    sig = [carrier, sender_role, 'own_name' if own_req else 'other_user', 'session' if has_session else 'no_session']
+    sig = [carrier, sender_role, 'own_name' if own_req else 'other_user', 'session' if has_session else 'no_session'] + list(sig_extra)
     new = {i: w.frames(conn)[before[i]:] for i, conn in conns.items()}
     if not c.symbolic:
         c.note('request', sig, {'asker': asker, 'ticket': ticket, 'query': query, 'matches': [nv, nl],
@@ -206,7 +212,10 @@ def one_request(c, w: World, sm, shares, fs, conns, roles, carrier, tag, matches
                 c.check(len(fr) == 0, 'own_search_not_forwarded', sig=sig)
                 continue
             c.reach('forwarded')
-            c.check(len(fr) == 1, 'forwarded_exactly_once', sig=sig)
+            if i in lenient:
+                c.check(len(fr) <= 1, 'forwarded_exactly_once', sig=sig + ['failing_socket'])
+            else:
+                c.check(len(fr) == 1, 'forwarded_exactly_once', sig=sig)
             if len(fr) >= 1:
                 f = fr[0]
                 c.check(type(f) is DistributedSearchRequest.Request, 'forwarded_as_search_request', sig=sig)
@@ -251,7 +260,7 @@ def h_fanout(c, roles, carrier, session=True):
     """one request into a tree of the given shape, then a membership change, then a second request"""
     with FileSizes() as fs:
         w, sm, shares = mk_world(c, session)
-        conns = build_tree(c, w, roles)
+        conns = build_tree(c, w, roles, symbolic_names=True)
         first = one_request(c, w, sm, shares, fs, conns, roles, carrier, '')
         if first is False:
             w.cleanup()
@@ -262,13 +271,14 @@ def h_fanout(c, roles, carrier, session=True):
             + [f'closing{i}' for i, r in enumerate(roles) if r == 'child']
         ch = c.pick(changes, 'change')
         if ch == 'join':
-            u = nm(c, 4)
+            u = tok(c, 'u_join', 1, 3)      # may be a user that already is a child on another connection
             nc = w.new_peer_conn(u, incoming=True)
             w.dn._accept_children, w.dn._max_children = True, 10
             w.ev_peer_initialized(nc, requested=False)
             i = len(roles)
             conns[i] = nc
-            roles.append('child')
+            # whether it is admitted is C13's business; from the admission on it is a child until its connection closes
+            roles.append('child' if any(p.connection is nc for p in w.dn.children) else 'cand')
             # the new child was told our position; those frames are not search traffic
         elif ch.startswith('leave'):
             i = int(ch[5:])
@@ -283,6 +293,46 @@ def h_fanout(c, roles, carrier, session=True):
         if ch != 'none':
             c.reach('membership_changed')
             one_request(c, w, sm, shares, fs, conns, roles, carrier, '_2', fixed_sender=None if first is True else first)
+        w.cleanup()
+
+
+def h_fault(c, roles, carrier, fault):
+    """a socket misbehaves while a request is fanned out.  fault = ['drain_error', i] / ['write_error', i]: the socket
+    of child i fails on this write (the connection code closes it); ['stall_close', k, j]: the socket of child k does
+    not drain, child j closes meanwhile, then k recovers.  Every other open child gets the request exactly once, the
+    affected one at most once, nobody else anything; a second request reaches exactly the children that are still open."""
+    with FileSizes() as fs:
+        w, sm, shares = mk_world(c, True)
+        roles = list(roles)
+        conns = build_tree(c, w, roles)
+        kind = fault[0]
+        after = None
+        if kind in ('drain_error', 'write_error'):
+            i = fault[1]
+            conns[i].fake_writer.fault = 'drain' if kind == 'drain_error' else 'write'
+            lenient = (i,)
+        else:
+            k, j = fault[1], fault[2]
+            conns[k].fake_writer.hang_drain = True
+            lenient = (k, j)
+
+            def after():
+                w.settle()
+                c.reach('stalled' if w.loop.pending_tasks() else 'not_stalled')
+                w.ev_close(conns[j])
+                conns[k].fake_writer.release()
+        first = one_request(c, w, sm, shares, fs, conns, roles, carrier, '', lenient=lenient, after_deliver=after,
+                            sig_extra=[kind])
+        if first is False:
+            w.cleanup()
+            return
+        for i, conn in conns.items():
+            conn.fake_writer.fault = None
+            if roles[i] == 'child' and conn.state is not ConnectionState.CONNECTED:
+                roles[i] = 'closed_child'
+        c.reach('fault_' + kind)
+        one_request(c, w, sm, shares, fs, conns, roles, carrier, '_2', fixed_sender=None if first is True else first,
+                    sig_extra=['after_' + kind])
         w.cleanup()
 
 
@@ -316,17 +366,20 @@ META = {
                    'frames counted are what StreamWriter.write received after the real queue_messages/send_message (which drops frames on a '
                    'closing connection). Closed and closing children are produced by the real disconnect(). Ticket, unknown, distributed_code '
                    'and the file sizes are z3 Ints, asker and query are tokens incl. the own name; z3 decides field equality between the '
-                   'request and every forwarded frame / the reply.',
+                   'request and every forwarded frame / the reply. Who is a child is book-kept by the harness (from admission until the '
+                   'connection closes), not read from DistributedNetwork.children; child user names are tokens, so the same user may be a child '
+                   'on two connections. A fault harness lets one child socket fail or stall (and another child close) during the fan-out.',
     'functions': FUNCS,
     'stubs': ['SharesManager.query -> returns the prepared (visible, locked) lists of real SharedItem objects (the query is C07)',
               'shares.utils.os.path.getsize -> harness table of symbolic sizes (both modes: there are no files)',
               'UploadInfoProvider -> constant stub', 'Network.send_peer_messages -> recorder (the reply would open a P connection)',
+              'fault harness: FakeWriter.write / drain raise ConnectionResetError once, or drain waits until released (environment faults, kept in replay)',
               'Network built with object.__new__ (see engine/fakes_dist.py)', 'StreamWriter -> recording FakeWriter; wait_closed() of a "closing" child does not return',
               'symbolic runs only: connection.encode_message_data -> identity; Settings.credentials.username -> own-name token',
               'logging disabled', 'asyncio loop -> engine.vloop.VLoop'],
-    'data_variables': ['ticket (uint32)', 'unknown (uint32)', 'distributed_code (0..255)', 'asker name token (3 values incl. own name)',
+    'data_variables': ['user name token of every child connection incl. a joining one (3 values; two child connections may belong to the same user)', 'ticket (uint32)', 'unknown (uint32)', 'distributed_code (0..255)', 'asker name token (3 values incl. own name)',
                        'query token (4 values)', 'file size of every result (uint64)'],
-    'discriminants': ['carrier (3)', 'role of each of 4 peers (absent/candidate/child/parent/closing child/closed child)', 'sender of a distributed carrier',
+    'discriminants': ['fault harness: which child socket fails (write / drain error) or stalls, which child closes meanwhile', 'carrier (3)', 'role of each of 4 peers (absent/candidate/child/parent/closing child/closed child)', 'sender of a distributed carrier',
                       'number of visible / locked matches (0..2 each)', 'membership change between two requests (none/join/leave/closing)', 'session present'],
     'bounds': {'quick': {'peers': 4, 'shapes': 'representative shapes with 0..3 children', 'requests': 2},
                'thorough': {'peers': 4, 'shapes': 'every multiset of roles with at most one parent, in two list orders', 'requests': 2}},
@@ -335,7 +388,7 @@ META = {
                 '(the property speaks about requests from the server or the parent)',
                 'legacy wrapper with a distributed_code other than 3: only "nothing reaches a non-child" is checked',
                 'server search without a session (the server reader only runs while a session exists); without a session the answer clause is not checked',
-                'blocked users (settings.users.blocked is empty)', 'delivery failures of the reply (send_peer_messages is a recorder)',
+                'blocked users (settings.users.blocked is empty)', 'delivery failures of the reply (send_peer_messages is a recorder)', 'more than one failing / stalled socket per fan-out',
                 'more than two requests / 4 peers'],
     'assumptions': ['remote peers do not carry the logged-in user name as connection user name'],
 }
@@ -370,6 +423,17 @@ def jobs(tier):
             req = ['request_' + carrier] if (carrier == 'server' or any(r in ('parent', 'child', 'cand') for r in shape)) else []
             out.append({'harness': 'fanout', 'fn': h_fanout, 'params': {'roles': shape, 'carrier': carrier, 'session': True},
                         'requires': req})
+    fault_shapes = [['child', 'child', 'child', 'parent']] if tier == 'quick' else \
+        [['child', 'child', 'child', 'parent'], ['child', 'child', 'cand', 'parent'], ['parent', 'child', 'child', 'child'],
+         ['child', 'closing_child', 'child', 'parent']]
+    for shape in fault_shapes:
+        kids = [i for i, r in enumerate(shape) if r == 'child']
+        faults = [['drain_error', i] for i in kids] + [['write_error', i] for i in kids[:-1]] \
+            + [['stall_close', k, j] for k in kids for j in kids if j <= k]
+        for carrier in CARRIERS:
+            for f in faults:
+                out.append({'harness': 'fault', 'fn': h_fault, 'params': {'roles': shape, 'carrier': carrier, 'fault': f},
+                            'requires': ['request_' + carrier, 'fault_' + f[0], 'forwarded']})
     for carrier in CARRIERS:
         out.append({'harness': 'answer', 'fn': h_answer, 'params': {'carrier': carrier, 'session': True},
                     'requires': ['request_' + carrier, 'answer_expected', 'no_answer_expected']})
